@@ -212,6 +212,75 @@ func canonical(t *table, o *opReq, id func() string) []submission {
 	return subs
 }
 
+// reuseSubs: per-connection histories that reuse an operation id.  All socket submissions of a case
+// share one connection per protocol, so a second start / subscribe with the id of the canonical
+// submission is a reuse of that id after the server completed the first operation (data ...,
+// complete) — legal in both protocols, and to be answered like the first.  "client-complete": the
+// client additionally sends its own stop / complete for the finished operation before reusing the id.
+func reuseSubs(subs []submission, which int) []submission {
+	var out []submission
+	for _, s := range subs {
+		if s.WS == nil || s.Role != "canonical" {
+			continue
+		}
+		e := *s.WS
+		label := "reuse-id"
+		if which == 1 {
+			label = "reuse-id-after-client-complete"
+			stop := "stop"
+			if e.Proto == "tws" {
+				stop = "complete"
+			}
+			e.Pre = []string{frameText("it", stop, e.ID, nil)}
+		}
+		out = append(out, submission{Transport: s.Transport, Role: "alias", Label: label, WS: &e})
+	}
+	return out
+}
+
+// framedSubs: every canonical POST of the case once more as a chunked stream (no Content-Length)
+func framedSubs(subs []submission, k int) []submission {
+	var out []submission
+	for _, s := range subs {
+		if s.HTTP == nil || s.Role != "canonical" || s.HTTP.Method != "POST" {
+			continue
+		}
+		e := *s.HTTP
+		e.Framing = []string{"chunked-3", "chunked-1", "chunked-all"}[k%3]
+		out = append(out, submission{Transport: s.Transport, Role: "alias", Label: e.Framing, HTTP: &e})
+		k++
+	}
+	return out
+}
+
+// activeIdSubs: a history around an id held by an ACTIVE subscription, on the case's connection of
+// protocol proto: (setup) a subscription that stays active takes the id; a query / mutation started
+// with the same id is executed and answered like its HTTP twin (HandleStart only looks at the
+// subscription table for subscriptions); a SUBSCRIPTION started with the same id is dropped, silently,
+// in both protocols; (setup) the client stops the held subscription and gets its complete; the id is
+// reused once more.  Roles: "setup" is not judged, "held-sub" must be dropped.
+func activeIdSubs(t *table, o *opReq, proto string, id string) []submission {
+	start := func(role, label string, payload *J, hold, quiet bool) submission {
+		s := wsSub(t, proto, role, label, id, payload, styleCompact, "itp")
+		s.WS.Hold, s.WS.Quiet = hold, quiet
+		return s
+	}
+	stop := "stop"
+	if proto == "tws" {
+		stop = "complete"
+	}
+	release := submission{Transport: proto, Role: "setup", Label: "release-id",
+		WS: &wsEnv{Proto: proto, Type: stop, ID: id, Raw: frameText("it", stop, id, nil), Quiet: true}}
+	body := bodyObj(o, true)
+	return []submission{
+		start("setup", "hold-id", jobj(kv{"query", jstr("subscription { hold }")}), true, false),
+		start("alias", "id-held-by-subscription", body, false, false),
+		start("held-sub", "subscription-on-held-id", jobj(kv{"query", jstr("subscription { ticks(n: 1) }")}), false, true),
+		release,
+		start("alias", "reuse-id-after-release", body, false, false),
+	}
+}
+
 func withNulls(o *opReq) *J {
 	kvs := []kv{{"query", jstr(o.Query)}}
 	if o.Vars != nil {
@@ -257,7 +326,7 @@ func dupKeys(j *J) *J {
 	return out
 }
 
-const nAliasKinds = 23
+const nAliasKinds = 25
 
 // alias envelopes: other spellings a client may use; the decoders are expected to read the same
 // request from most of them (the model decides; all envelopes the model decodes to the same request
@@ -269,7 +338,7 @@ func aliasSub(t *table, o *opReq, kind int, r *rng.R, id func() string) *submiss
 		t.tree(txt, j)
 		return &submission{Transport: "post-json", Role: "alias", Label: label, HTTP: &httpEnv{Method: "POST", ContentType: ct, Params: params, Body: txt}}
 	}
-	if o.Sub && (kind < 14 || kind == 22) {
+	if o.Sub && (kind < 14 || kind >= 22) {
 		return nil
 	}
 	switch kind {
@@ -373,6 +442,34 @@ func aliasSub(t *table, o *opReq, kind int, r *rng.R, id func() string) *submiss
 		}
 		s := wsSub(t, rng.Pick(r, []string{"gws", "tws"}), "other", "dup-null", id(), j, styleCompact, "itp")
 		return &s
+	case 23:
+		// the body of a POST as a chunked stream (no Content-Length): the same request
+		fr := rng.Pick(r, []string{"chunked-1", "chunked-3", "chunked-all"})
+		if o.Vars == nil && o.OpName == "" && r.Bool() {
+			return &submission{Transport: "post-graphql", Role: "alias", Label: fr, HTTP: &httpEnv{Method: "POST", ContentType: "application/graphql", Body: o.Query, Framing: fr}}
+		}
+		s := postJSON(fr, body, styleCompact, "application/json", nil)
+		s.HTTP.Framing = fr
+		return s
+	case 24:
+		// a Content-Length that does not match the bytes sent: one short (the handler sees a prefix:
+		// for JSON a truncated value, for application/graphql another document), or larger than what
+		// arrives before the client stops (the stream ends early: a malformed envelope)
+		fr := rng.Pick(r, []string{"cl-short", "cl-long"})
+		role := "malformed"
+		if o.Vars == nil && o.OpName == "" && r.Bool() {
+			if fr == "cl-short" {
+				role = "other"
+			}
+			return &submission{Transport: "post-graphql", Role: role, Label: fr, HTTP: &httpEnv{Method: "POST", ContentType: "application/graphql", Body: o.Query, Framing: fr}}
+		}
+		txt := body.text(styleCompact)
+		if fr == "cl-short" {
+			t.bad(txt[:len(txt)-1])
+		} else {
+			t.tree(txt, body)
+		}
+		return &submission{Transport: "post-json", Role: role, Label: fr, HTTP: &httpEnv{Method: "POST", ContentType: "application/json", Body: txt, Framing: fr}}
 	case 22:
 		// persisted-query lookup of a hash that was never registered: with a storage configured the
 		// answer is PersistedQueryNotFound, without one the empty query is executed; either way an
@@ -652,6 +749,12 @@ func (w *world) run(cfg config, feat bool, o *opReq, t *table, subs []submission
 				// (an alias envelope may select another operation of the document than the case's: any
 				// started document that mentions a subscription is awaited by its own complete)
 				async := (o.Sub || strings.Contains(s.WS.Raw, "subscription")) && len(decs[k].List) > 0 && decs[k].List[0].Sym == "start"
+				if s.Label == "release-id" {
+					async = true // the stopped subscription answers with its complete
+				}
+				if s.Role == "held-sub" {
+					async = false // dropped: nothing will come
+				}
 				for _, v := range variants {
 					obs[k] = appendObs(obs[k], v.serveWS(*s.WS, feat, async, w.caseNo).sexp())
 				}
@@ -743,7 +846,13 @@ func main() {
 					cfg, feat, o, idx := cfg, feat, o, h.Index()
 					h.Case(func(r *rng.R) sexp.Node {
 						t := &table{}
-						return w.run(cfg, feat, o, t, canonical(t, o, ids(idx)))
+						subs := canonical(t, o, ids(idx))
+						subs = append(subs, reuseSubs(subs, idx%2)...)
+						subs = append(subs, framedSubs(subs, idx)...)
+						if !o.Sub && idx%4 == 1 {
+							subs = append(subs, activeIdSubs(t, o, []string{"gws", "tws"}[(idx/4)%2], fmt.Sprintf("h%d", idx))...)
+						}
+						return w.run(cfg, feat, o, t, subs)
 					})
 				}
 			}
@@ -862,6 +971,15 @@ func main() {
 				}
 				if !o.Sub && r.Chance(1, 8) {
 					subs = append(subs, *rawGetSub(r.Intn(len(rawVarTexts)), rng.Pick(r, []string{"variables", "variables", "extensions"})))
+				}
+				if r.Chance(1, 4) {
+					subs = append(subs, framedSubs(subs[:len(canonical(&table{}, o, ids(0)))], r.Intn(3))...)
+				}
+				if r.Chance(1, 4) {
+					subs = append(subs, reuseSubs(subs[:len(canonical(&table{}, o, ids(0)))], r.Intn(2))...)
+				}
+				if !o.Sub && r.Chance(1, 10) {
+					subs = append(subs, activeIdSubs(t, o, rng.Pick(r, []string{"gws", "tws"}), fmt.Sprintf("h%d", idx))...)
 				}
 				if r.Chance(1, 40) {
 					subs = append(subs, preInitSub(t, o, rng.Pick(r, []string{"gws", "tws"}), id))
